@@ -25,10 +25,10 @@ def run(ctx):
     if 'B' in ctx.stages:
         for front, V in (('v2', 'v2all'), ('legacy', 'legacy')):
             cfgp = pc.mc_cfg('pit-B5-' + front, front, 2, 1, 'small', V, invs=[], props=[])
-            pc.stage_b(ctx, front, cfgp, 'verdicts 2 entries MaxT=1', devs=DEVS[front], max_paths=ctx.pick(700, None))
+            pc.stage_b(ctx, front, cfgp, 'verdicts 2 entries MaxT=1', devs=DEVS[front], max_paths=ctx.pick(700, 12000))
             cfgp = fc.mc_cfg('fib-B5-' + front, front, 'small', 'gate', 'v2' if front == 'v2' else 'legacy', 2, 0, 2,
                              vals='both', invs=[], props=[])
-            fc.stage_b(ctx, front, cfgp, 'gate 2 Interests', max_paths=ctx.pick(700, None))
+            fc.stage_b(ctx, front, cfgp, 'gate 2 Interests', max_paths=ctx.pick(700, 12000))
     if 'C' in ctx.stages:
         for front in ('v2', 'legacy'):
             pc.stage_c(ctx, front, ctx.pick(200, 3000), 40, devs=DEVS[front],
